@@ -1,8 +1,8 @@
 (* C06 -- the built-in Targets behave as a content map plus a reference -> descriptor map.
    Only statements closed by [exact]; the lemmas live in Proofs/Stores.v, the executable
    models (memory store, OCI layout store, abstract specification) in Model/Stores.v. *)
-From Oras Require Import Base.Prelude Generated.GC06 Model.Stores Model.StoresConc Model.StoresConcOci Model.StoresConcFile
-     Proofs.Stores Proofs.StoresConc Proofs.StoresConcOci Proofs.StoresConcOci2 Proofs.StoresConcFile Proofs.StoresFile.
+From Oras Require Import Base.Prelude Generated.GC06 Model.Stores Model.StoresFileSpec Model.StoresConc Model.StoresConcOci Model.StoresConcFile
+     Proofs.Stores Proofs.StoresConc Proofs.StoresConcOci Proofs.StoresConcOci2 Proofs.StoresConcFile Proofs.StoresFile Proofs.StoresConcFileGraph Proofs.StoresConcReads Proofs.StoresFileSpec.
 From Coq Require Import Permutation.
 
 (* For every history, the memory store (cas.Memory + resolver.Memory + graph.Memory)
@@ -115,7 +115,8 @@ Theorem C06_absent_notfound_oci : forall h g,
   let s := fst (run oci_step oci_init h) in
   get N.eqb g (o_blobs s) = None /\
   forall d r, d_dig d = g -> snd (oci_step s (Fetch d)) = OErr ENotFound /\
-                             (r <> REmpty -> snd (oci_step s (Tag d r)) = OErr ENotFound) /\
+                             (r <> REmpty -> foreign_digest_ref d r = false ->
+                              snd (oci_step s (Tag d r)) = OErr ENotFound) /\
                              snd (oci_step s (Exists d)) = OBool false /\
                              snd (oci_step s (Delete d)) = OErr ENotFound.
 Proof. exact oci_never_pushed_absent. Qed.
@@ -168,6 +169,77 @@ Theorem C06_conc_fetch_matches_file :
   hash = d_dig d.
 Proof. exact conc_fetch_matches_file. Qed.
 Print Assumptions C06_conc_fetch_matches_file.
+
+(* ---- concurrency: reads at every reachable configuration ----
+   Not only at quiescence: after EVERY prefix of EVERY schedule the content map and the tag map
+   are those of the sequential execution of the commit log (whose projection to a goroutine
+   is a prefix of its program), so a Fetch / Exists / Resolve taken at that moment answers what
+   that sequential execution answers -- content-map reads are linearisable.  (OCI: Resolve by
+   name; a digest reference during a manifest Push may see the blob before its digest tag.) *)
+Theorem C06_reads_linearisable_memory : forall (progs : list (list op)) (sched : list nat),
+  let cf := mconf_run (mconf_init progs) sched in
+  let q := fst (run mem_step mem_init (map snd (c_log cf))) in
+  (forall i, exists rest, log_of i (c_log cf) ++ rest = nth i progs []) /\
+  forall d r, snd (mem_step (c_store cf) (Fetch d)) = snd (mem_step q (Fetch d)) /\
+              snd (mem_step (c_store cf) (Exists d)) = snd (mem_step q (Exists d)) /\
+              snd (mem_step (c_store cf) (Resolve r)) = snd (mem_step q (Resolve r)).
+Proof. exact reads_linearisable_memory. Qed.
+Print Assumptions C06_reads_linearisable_memory.
+
+Theorem C06_reads_linearisable_oci :
+  forall (U : N -> gkey) (B : N -> blob) (progs : list (list op)) (sched : list nat),
+  (forall g, k_dig (U g) = g) -> Forall (wf_op U B) (concat progs) ->
+  let cf := oconf_run (oconf_init progs) sched in
+  let q := fst (run oci_step oci_init (map snd (oc_log cf))) in
+  (forall i, exists rest, log_of i (oc_log cf) ++ rest = nth i progs []) /\
+  forall d n, snd (oci_step (oc_store cf) (Fetch d)) = snd (oci_step q (Fetch d)) /\
+              snd (oci_step (oc_store cf) (Exists d)) = snd (oci_step q (Exists d)) /\
+              snd (oci_step (oc_store cf) (Resolve (RName n))) = snd (oci_step q (Resolve (RName n))).
+Proof. exact reads_linearisable_oci. Qed.
+Print Assumptions C06_reads_linearisable_oci.
+
+(* the decision of a Push is taken in one atomic step reading the content map: at every
+   reachable configuration it is the one the sequential execution of the commit log takes
+   (memory store, file store; false for the OCI store: C06_repush_refused_oci_racing_refuted) *)
+Theorem C06_push_decision_linearisable_memory : forall (progs : list (list op)) (sched : list nat),
+  let cf := mconf_run (mconf_init progs) sched in
+  let q := fst (run mem_step mem_init (map snd (c_log cf))) in
+  forall d c, snd (mem_step (c_store cf) (Push d c)) = snd (mem_step q (Push d c)).
+Proof. exact push_decision_linearisable_memory. Qed.
+Print Assumptions C06_push_decision_linearisable_memory.
+
+Theorem C06_push_decision_linearisable_file :
+  forall (fx ig ov : bool) (progs : list (list op)) (sched : list nat),
+  Forall untitled (concat progs) ->
+  let cf := fconf_run fx ig ov (fconf_init progs) sched in
+  let q := fst (runf (file_step fx ig ov) file_init (map snd (fc_log cf))) in
+  forall d c, snd (file_push_store fx ig ov (fc_store cf) d c) = snd (file_push_store fx ig ov q d c).
+Proof. exact push_decision_linearisable_file. Qed.
+Print Assumptions C06_push_decision_linearisable_file.
+
+(* OCI Tags: at every reachable configuration the set of names listed is the one the sequential
+   execution of the commit log lists *)
+Theorem C06_tags_linearisable_oci :
+  forall (U : N -> gkey) (B : N -> blob) (progs : list (list op)) (sched : list nat),
+  (forall g, k_dig (U g) = g) -> Forall (wf_op U B) (concat progs) ->
+  let cf := oconf_run (oconf_init progs) sched in
+  let q := fst (run oci_step oci_init (map snd (oc_log cf))) in
+  forall n l l', snd (oci_step (oc_store cf) Tags) = OTags l -> snd (oci_step q Tags) = OTags l' ->
+                 (In (RName n) l <-> In (RName n) l').
+Proof. exact tags_linearisable_oci. Qed.
+Print Assumptions C06_tags_linearisable_oci.
+
+Theorem C06_reads_linearisable_file :
+  forall (fx ig ov : bool) (progs : list (list op)) (sched : list nat),
+  Forall untitled (concat progs) ->
+  let cf := fconf_run fx ig ov (fconf_init progs) sched in
+  let q := fst (runf (file_step fx ig ov) file_init (map snd (fc_log cf))) in
+  (forall i, exists rest, log_of i (fc_log cf) ++ rest = nth i progs []) /\
+  forall d r, snd (file_step fx ig ov (fc_store cf) (Fetch d)) = snd (file_step fx ig ov q (Fetch d)) /\
+              snd (file_step fx ig ov (fc_store cf) (Exists d)) = snd (file_step fx ig ov q (Exists d)) /\
+              snd (file_step fx ig ov (fc_store cf) (Resolve r)) = snd (file_step fx ig ov q (Resolve r)).
+Proof. exact reads_linearisable_file. Qed.
+Print Assumptions C06_reads_linearisable_file.
 
 (* ---- concurrency: memory store ---- *)
 
@@ -223,10 +295,10 @@ Theorem C06_quiescent_serialisable_oci_partial :
 Proof. exact quiescent_serialisable_oci. Qed.
 Print Assumptions C06_quiescent_serialisable_oci_partial.
 
-(* The complete statement (the part missing above): with the additional hypothesis that a
-   reference is never another node's digest string (wf2_op), EVERY Resolve answer --
-   names, digest strings (resolver entry or blob fallback), the empty reference -- at
-   quiescence is the one of the sequential order. *)
+(* The complete statement: EVERY Resolve answer -- names, digest strings (resolver entry or
+   blob fallback), the empty reference -- at quiescence is the one of the sequential order.
+   (wf2_op is wf_op: Store.Tag itself refuses another content's digest string as reference,
+   and its graph.Index step on manifest descriptors is one of the atomic steps.) *)
 Theorem C06_quiescent_serialisable_oci :
   forall (U : N -> gkey), (forall g, k_dig (U g) = g) ->
   forall (B : N -> blob) (progs : list (list op)) (sched : list nat),
@@ -261,7 +333,7 @@ Proof. exact ox_quiescent. Qed.
    IgnoreNoName, DisableOverwrite) and EVERY schedule run to completion, names,
    digestToPath, files, fallback storage and resolver are literally those of a sequential
    order of the same operations in program order, so every Fetch, Exists and Resolve
-   answers alike.  Partial: the graph (Predecessors) is not compared; programs use neither
+   answers alike.  Partial: the graph (Predecessors) is in the next theorem; programs use neither
    the aliasing name (two names, two locks, one file) nor titled successors (with those the
    restore step falls behind the store and executions are not serialisable in general). *)
 Theorem C06_quiescent_serialisable_file_partial :
@@ -280,10 +352,78 @@ Theorem C06_quiescent_serialisable_file_partial :
 Proof. exact quiescent_serialisable_file. Qed.
 Print Assumptions C06_quiescent_serialisable_file_partial.
 
+(* ... and the graph: with the repaired pushFile, store and graph.Index as separate atomic
+   steps, collision-free bytes B, EVERY schedule run to completion ends with the core state
+   and the Predecessors answers (as sets) of the sequential execution in commit order.
+   Programs use neither the aliasing name nor titled successors (see above). *)
+Theorem C06_quiescent_serialisable_file_graph :
+  forall (B : N -> blob) (ig ov : bool) (progs : list (list op)) (sched : list nat),
+  Forall (good_op B) (concat progs) ->
+  let cf := fconf_run true ig ov (fconf_init progs) sched in
+  fquiescent cf = true ->
+  exists order : list (nat * op),
+    Permutation (map snd order) (concat progs) /\
+    (forall i, log_of i order = nth i progs []) /\
+    let q := fst (runf (file_step true ig ov) file_init (map snd order)) in
+    fcore (fc_store cf) = fcore q /\
+    forall n k, In k (map gk (g_predecessors n (f_graph (fc_store cf)))) <->
+                In k (map gk (g_predecessors n (f_graph q))).
+Proof. exact quiescent_serialisable_file_graph. Qed.
+Print Assumptions C06_quiescent_serialisable_file_graph.
+
+Example C06_ex_file_graph_conc_good : Forall (good_op fgx_B) (concat fgc_progs).
+Proof. exact fgc_good. Qed.
+Example C06_ex_file_graph_conc_run :
+  let cf := fconf_run true false false (fconf_init fgc_progs) fgc_sched in
+  fquiescent cf = true /\ map gk (g_predecessors w_layer (f_graph (fc_store cf))) = [(1, 9, 20)].
+Proof. exact fgc_quiescent. Qed.
+
+(* known finding file-conc-titled-restore-not-serialisable: WITH a titled successor the
+   statement is refuted -- the schedule [0;1;1;1;0] of ft_progs (push manifest M under name 2 ||
+   push M again under name 2, then push M's layer) ends quiescent with the layer's title
+   (name 1) restored, and none of the three sequential orders that keep program order does *)
+Theorem C06_quiescent_serialisable_file_titled_refuted :
+  let cf := fconf_run true false false (fconf_init ft_progs) ft_sched in
+  fquiescent cf = true /\
+  f_names (fc_store cf) = [1; 2] /\
+  map (fun h => f_names (fst (runf (file_step true false false) file_init h))) ft_orders = [[2]; [2]; [2]].
+Proof. exact file_titled_not_serialisable. Qed.
+Print Assumptions C06_quiescent_serialisable_file_titled_refuted.
+
+Example C06_ex_file_hyps : Forall untitled (concat fx_progs) /\ Forall no_alias (concat fx_progs).
+Proof. exact fx_hyps. Qed.
 Example C06_ex_file_quiescent : fquiescent (fconf_run true false false (fconf_init fx_progs) fx_sched) = true.
 Proof. exact fx_quiescent. Qed.
 
 (* ---- file store (names, duplicate-name, fallback CAS; options IgnoreNoName, DisableOverwrite) ---- *)
+
+(* Refinement: for EVERY history that does not use a second name for one path, the file store
+   (repaired pushFile, any IgnoreNoName / DisableOverwrite setting, restoreDuplicates with
+   titled successors included) returns step by step exactly what the abstract specification
+   Model/StoresFileSpec.v returns -- a set of names, one content map by digest for named
+   content, the fallback content map, the tag map and the graph -- and its
+   digestToPath -> path -> file indirection is that content map. *)
+Theorem C06_refines_file : forall (ig ov : bool) (h : list op),
+  Forall no_alias h ->
+  snd (runf (file_step true ig ov) file_init h) = snd (runf (fspec_step ig) fspec_init h) /\
+  frel (fst (runf (file_step true ig ov) file_init h)) (fst (runf (fspec_step ig) fspec_init h)).
+Proof. exact refines_file. Qed.
+Print Assumptions C06_refines_file.
+
+(* ... so DisableOverwrite cannot be observed on such histories *)
+Theorem C06_disable_overwrite_unobservable_file : forall (ig : bool) (h : list op),
+  Forall no_alias h ->
+  snd (runf (file_step true ig true) file_init h) = snd (runf (file_step true ig false) file_init h).
+Proof. exact file_disable_overwrite_unobservable. Qed.
+Print Assumptions C06_disable_overwrite_unobservable_file.
+
+
+(* the file store has no Delete: for every option setting and EVERY history (aliasing names
+   and titled successors included) what Exists once answered true for stays present *)
+Theorem C06_presence_monotone_file : forall (fx ig ov : bool) (h : list op) (s : file_store) (d : desc),
+  file_exists d s = true -> file_exists d (fst (runf (file_step fx ig ov) s h)) = true.
+Proof. exact file_run_fle. Qed.
+Print Assumptions C06_presence_monotone_file.
 
 (* whatever the options, in a history whose pushes do not use two names for one path
    ([no_alias]), a Fetch never returns bytes whose hash is not the requested digest
@@ -329,6 +469,31 @@ Theorem C06_absent_notfound_file : forall fx ig ov h g,
     (r <> REmpty -> snd (file_step fx ig ov s (Tag d r)) = FO (OErr ENotFound)).
 Proof. exact file_absent_notfound. Qed.
 Print Assumptions C06_absent_notfound_file.
+
+(* Predecessors of the file store, for every history (titled successors / restoreDuplicates,
+   IgnoreNoName, DisableOverwrite included; the aliasing name excluded; B = the bytes a digest
+   stands for): exactly the indexed nodes whose bytes list the node as a successor ... *)
+Theorem C06_predecessors_exact_file : forall (B : N -> blob) ig ov h n k,
+  Forall no_alias h -> Forall (wfB_op B) h ->
+  let s := fst (runf (file_step true ig ov) file_init h) in
+  In k (map gk (g_predecessors n (f_graph s))) <->
+  In k (map fst (g_nodes (f_graph s))) /\ In (gk n) (succ_of k (B (k_dig k))).
+Proof. exact file_preds_exact. Qed.
+Print Assumptions C06_predecessors_exact_file.
+
+(* ... and every Push that succeeded (not discarded by IgnoreNoName) is indexed for ever *)
+Theorem C06_push_ok_indexed_file : forall fx ig ov s d c h2,
+  (ig = false \/ d_name d <> 0) ->
+  snd (file_step fx ig ov s (Push d c)) = FO OOk ->
+  indexed (gk d) (fst (runf (file_step fx ig ov) (fst (file_step fx ig ov s (Push d c))) h2)).
+Proof. exact file_push_ok_indexed. Qed.
+Print Assumptions C06_push_ok_indexed_file.
+
+Example C06_ex_file_graph_wf : Forall (wfB_op fgx_B) fgx_hist /\ Forall no_alias fgx_hist.
+Proof. exact fgx_wf. Qed.
+Example C06_ex_file_graph_run :
+  snd (runf (file_step true false false) file_init fgx_hist) = [FO OOk; FO OOk; FO (OPreds [(1, 9, 20)])].
+Proof. exact fgx_run. Qed.
 
 (* Resolve returns the descriptor most recently tagged *)
 Theorem C06_resolve_latest_file : forall fx ig ov s d r h2,
@@ -400,6 +565,15 @@ Theorem C06_fetch_matches_digest_file_alias_refuted :
 Proof. exact file_alias_witness. Qed.
 Print Assumptions C06_fetch_matches_digest_file_alias_refuted.
 
+(* known finding oci-racing-pushes-all-succeed: under the schedule [0;1;0;1] two goroutines
+   pushing the same blob both pass the stat check and both rename their temp file onto the
+   blob path (both Push calls return nil); every sequential order refuses the second *)
+Theorem C06_repush_refused_oci_racing_refuted :
+  map ot_pc (oc_threads (oconf_run (oconf_init orace_progs) [0; 1; 0; 1]%nat)) = [OPush3 ex_layer; OPush3 ex_layer] /\
+  snd (run oci_step oci_init (concat orace_progs)) = [OOk; OErr EAlreadyExists].
+Proof. exact orace_both_renamed. Qed.
+Print Assumptions C06_repush_refused_oci_racing_refuted.
+
 (* ---- tie to the source ---- *)
 (* the media types descriptor.IsManifest accepts are exactly those content.Successors
    decodes, and there are five of them (the model's media type ids 1..5) *)
@@ -408,6 +582,14 @@ Theorem C06_manifest_types_from_source :
    (length isManifest_cases = 5%nat) /\ NoDup isManifest_cases)%type.
 Proof. exact manifest_types_from_source. Qed.
 Print Assumptions C06_manifest_types_from_source.
+
+(* the order of effects the hand-written step functions mirror (store before index before
+   restore, stat before rename before index before tag, untag before graph.Remove before
+   storage.Delete, Load before ReadAll before LoadOrStore and no plain Store, ...) is the
+   order of the calls in the Go sources as re-read on every run *)
+Theorem C06_call_order_from_source : forallb (fun x => x) call_order_checks = true.
+Proof. exact call_order_from_source. Qed.
+Print Assumptions C06_call_order_from_source.
 
 (* ---- the hypotheses are satisfiable: a concrete universe and history (Proofs/Stores.v) ---- *)
 Example C06_ex_U_dig : forall g, k_dig (ex_U g) = g.
